@@ -14,12 +14,15 @@
      out   : history oracle, outstanding additions per key since the last clear (never read by operations)
 
    Operations: <<"rt", who, channel, 0>> (export + load)  <<"add", who, key, amount>>  <<"rem", who, key, amount>> (counting only; only legitimate
-   removals are generated: amount <= outstanding count, or the key is reported absent)  <<"clear", who>>.
+   removals are generated: amount <= outstanding count, or the key is reported absent)  <<"clear", who>>
+   <<"uni", who>> / <<"int", who>>: the union / intersection of (A, B) is ADOPTED as filter `who`, so that results of the binary
+   operations become operands and receivers of later operations. The library sets the counter of such a result to an
+   estimate (a float formula, not modelled): `nest` marks it, n then counts from 0 and the harness adds the observed base.
    Saturation (C16): a cell is pinned at CellMax, the counter at TotMax; a counting cell that reached
    CellMax is never decremented again.                                                               *)
 EXTENDS Integers, Sequences, FiniteSets, TLC, Json
 
-CONSTANTS Keys, M, K, Tables, Counting, CellMax, TotMax, Amts, MaxN, MaxDepth, Whos, Channels, MaxReloads
+CONSTANTS Keys, M, K, Tables, Counting, CellMax, TotMax, Amts, MaxN, MaxDepth, Whos, Channels, MaxReloads, MaxAdopt
 
 VARIABLES pos, fs, hist, last
 vars == <<pos, fs, hist, last>>
@@ -27,7 +30,8 @@ vars == <<pos, fs, hist, last>>
 Mn(a, b) == IF a < b THEN a ELSE b
 P(k, i) == (pos[k][i] % M) + 1            \* 1-based cell index of the i-th position of key k
 
-EmptyF == [cells |-> [p \in 1..M |-> 0], n |-> 0, out |-> [k \in Keys |-> 0], sat |-> FALSE, rl |-> 0]
+EmptyF == [cells |-> [p \in 1..M |-> 0], n |-> 0, out |-> [k \in Keys |-> 0], sat |-> FALSE, rl |-> 0, nest |-> FALSE, ad |-> 0]
+   \* nest: the counter is (estimate at adoption) + n;  ad: number of adoptions (bounded, like rl)
    \* sat (history oracle): some cell or the counter has been clamped since the last clear
    \* rl: number of export+load round trips the object went through (part of the state, so histories continue on the restored object)
 
@@ -44,7 +48,7 @@ AddCells(cells, k, amt, i, mn) ==
 AddF(f, k, amt) ==
   LET r == AddCells(f.cells, k, amt, 1, -1) IN
   [f |-> [cells |-> r[1], n |-> Mn(f.n + amt, TotMax), out |-> [f.out EXCEPT ![k] = @ + amt],
-          sat |-> f.sat \/ f.n + amt >= TotMax \/ (Counting /\ \E p \in 1..M : r[1][p] >= CellMax), rl |-> f.rl],
+          sat |-> f.sat \/ f.n + amt >= TotMax \/ (Counting /\ \E p \in 1..M : r[1][p] >= CellMax), rl |-> f.rl, nest |-> f.nest, ad |-> f.ad],
    ret |-> IF Counting THEN r[2] ELSE -1]
 
 Est(f, k) ==      \* check(): minimum over the key's cells (1/0 for the plain filter)
@@ -62,7 +66,7 @@ RemF(f, k, amt) ==
   ELSE IF mv = 0 THEN [f |-> f, ret |-> 0]                   \* reported absent: nothing changes
   ELSE LET t == Mn(amt, mv) IN
        [f |-> [cells |-> SubCells(f.cells, k, t, 1), n |-> f.n - t,
-               out |-> [f.out EXCEPT ![k] = IF @ >= t THEN @ - t ELSE 0], sat |-> f.sat, rl |-> f.rl],
+               out |-> [f.out EXCEPT ![k] = IF @ >= t THEN @ - t ELSE 0], sat |-> f.sat, rl |-> f.rl, nest |-> f.nest, ad |-> f.ad],
         ret |-> mv - t]
 
 -----------------------------------------------------------------------------
@@ -75,6 +79,12 @@ Jaccard(a, b) == LET u == Cardinality({p \in 1..M : a.cells[p] > 0 \/ b.cells[p]
                      i == Cardinality({p \in 1..M : a.cells[p] > 0 /\ b.cells[p] > 0})
                  IN IF u = 0 THEN <<1, 1>> ELSE <<i, u>>
 SetBits(f) == Cardinality({p \in 1..M : f.cells[p] > 0})
+(* the result of a binary operation taken as a filter: every key owed by an operand (union) / by both (intersection) is owed by it *)
+Adopted(a, b, old, op) ==
+  LET cells == IF op = "uni" THEN UnionCells(a, b) ELSE InterCells(a, b) IN
+  [cells |-> cells, n |-> 0,
+   out |-> [k \in Keys |-> IF op = "uni" THEN a.out[k] + b.out[k] ELSE IF a.out[k] > 0 /\ b.out[k] > 0 THEN a.out[k] + b.out[k] ELSE 0],
+   sat |-> a.sat \/ b.sat \/ (Counting /\ \E p \in 1..M : cells[p] >= CellMax), rl |-> old.rl, nest |-> TRUE, ad |-> old.ad + 1]
 
 -----------------------------------------------------------------------------
 LegitRem(f, k, amt) == amt <= f.out[k] \/ Est(f, k) = 0
@@ -83,6 +93,7 @@ Ops == {<<"add", w, k, a>> : w \in Whos, k \in Keys, a \in Amts}
        \cup (IF Counting THEN {<<"rem", w, k, a>> : w \in Whos, k \in Keys, a \in Amts} ELSE {})
        \cup {<<"clear", w, "", 0>> : w \in Whos}
        \cup {<<"rt", w, c, 0>> : w \in Whos, c \in Channels}          \* export + load through channel c: identity on the abstract state
+       \cup {<<op, w, "", 0>> : op \in {"uni", "int"}, w \in Whos}
 
 Init == /\ pos \in Tables
         /\ fs = [w \in {"A", "B"} |-> EmptyF]
@@ -90,9 +101,11 @@ Init == /\ pos \in Tables
 
 Do(o) == LET w == o[2]  f == fs[w] IN
          /\ CASE o[1] = "add" -> LET r == AddF(f, o[3], o[4]) IN fs' = [fs EXCEPT ![w] = r.f] /\ last' = [o |-> o, ret |-> r.ret]
-              [] o[1] = "rem" -> /\ LegitRem(f, o[3], o[4])
+              [] o[1] = "rem" -> /\ LegitRem(f, o[3], o[4]) /\ ~f.nest      \* amounts were never added to an adopted result: no removal there
                                  /\ LET r == RemF(f, o[3], o[4]) IN fs' = [fs EXCEPT ![w] = r.f] /\ last' = [o |-> o, ret |-> r.ret]
-              [] o[1] = "clear" -> fs' = [fs EXCEPT ![w] = [EmptyF EXCEPT !.rl = f.rl]] /\ last' = [o |-> o, ret |-> -1]
+              [] o[1] = "clear" -> fs' = [fs EXCEPT ![w] = [EmptyF EXCEPT !.rl = f.rl, !.ad = f.ad]] /\ last' = [o |-> o, ret |-> -1]
+              [] o[1] \in {"uni", "int"} -> /\ f.ad < MaxAdopt
+                                            /\ fs' = [fs EXCEPT ![w] = Adopted(fs["A"], fs["B"], f, o[1])] /\ last' = [o |-> o, ret |-> -1]
               [] o[1] = "rt" -> /\ f.rl < MaxReloads
                                 /\ fs' = [fs EXCEPT ![w].rl = @ + 1] /\ last' = [o |-> o, ret |-> -1]
          /\ hist' = Append(hist, o)
@@ -101,6 +114,7 @@ Do(o) == LET w == o[2]  f == fs[w] IN
 Next == \E o \in Ops : Do(o)
 Spec == Init /\ [][Next]_vars
 View == <<pos, fs>>
+ViewH == <<pos, fs, hist>>       \* no merging: the search enumerates histories (see CountMin.tla); used on the smallest instances
 Bound == Len(hist) <= MaxDepth /\ \A w \in {"A", "B"} : \A k \in Keys : fs[w].out[k] <= MaxN
 
 -----------------------------------------------------------------------------
@@ -111,21 +125,21 @@ NoFalseNegative ==                                   \* C01 / C08: never below t
   \A w \in {"A", "B"} : \A k \in Keys :
      fs[w].out[k] > 0 => (IF Counting THEN Est(fs[w], k) >= Mn(fs[w].out[k], CellMax) ELSE Est(fs[w], k) = 1)
 UnionSuperset ==                                     \* C12: the union reports every key either operand reports
-  LET u == [cells |-> UnionCells(fs["A"], fs["B"]), n |-> 0, out |-> EmptyF.out, sat |-> FALSE, rl |-> 0] IN
+  LET u == [EmptyF EXCEPT !.cells = UnionCells(fs["A"], fs["B"])] IN
   \A k \in Keys : (Est(fs["A"], k) > 0 \/ Est(fs["B"], k) > 0) => Est(u, k) > 0
 UnionSumLower ==                                     \* C12: never below the sum of the operands' true counts
-  LET u == [cells |-> UnionCells(fs["A"], fs["B"]), n |-> 0, out |-> EmptyF.out, sat |-> FALSE, rl |-> 0] IN
+  LET u == [EmptyF EXCEPT !.cells = UnionCells(fs["A"], fs["B"])] IN
   Counting => \A k \in Keys : Est(u, k) >= Mn(fs["A"].out[k] + fs["B"].out[k], CellMax)
 InterBoth ==                                         \* C13: the intersection reports every key both report
-  LET x == [cells |-> InterCells(fs["A"], fs["B"]), n |-> 0, out |-> EmptyF.out, sat |-> FALSE, rl |-> 0] IN
+  LET x == [EmptyF EXCEPT !.cells = InterCells(fs["A"], fs["B"])] IN
   \A k \in Keys : (Est(fs["A"], k) > 0 /\ Est(fs["B"], k) > 0) => Est(x, k) > 0
 JaccardOK == LET j == Jaccard(fs["A"], fs["B"]) IN                    \* C13
              /\ j[1] >= 0 /\ j[1] <= j[2] /\ j = Jaccard(fs["B"], fs["A"])
              /\ (fs["A"].cells = fs["B"].cells => j[1] = j[2])
 CounterMeaning ==                                    \* C14 below saturation: calls / net amounts
   \A w \in {"A", "B"} : LET RECURSIVE S(_) S(X) == IF X = {} THEN 0 ELSE LET k == CHOOSE y \in X : TRUE IN fs[w].out[k] + S(X \ {k})
-                        IN ~fs[w].sat => fs[w].n = S(Keys)
-Monotone == [][ \A w \in {"A", "B"} : (last'.o[1] = "add" /\ last'.o[2] = w) =>
+                        IN (~fs[w].sat /\ ~fs[w].nest) => fs[w].n = S(Keys)
+Monotone == [][ \A w \in {"A", "B"} : (last'.o[1] \in {"add", "uni"} /\ last'.o[2] = w) =>
                    \A p \in 1..M : fs'[w].cells[p] >= fs[w].cells[p] ]_vars           \* C01: add only sets
 RemoveUndoesAdd ==                                   \* C08: below the limit, remove(k,a) after add(k,a) restores cells and n
   Counting => \A w \in {"A", "B"} : \A k \in Keys : \A a \in Amts :
@@ -133,10 +147,10 @@ RemoveUndoesAdd ==                                   \* C08: below the limit, re
      ((\A p \in 1..M : r.f.cells[p] < CellMax) /\ r.f.n < TotMax) =>
         LET u == RemF(r.f, k, a) IN u.f.cells = f.cells /\ u.f.n = f.n
 SaturatedStays == [][ Counting => \A w \in {"A", "B"} : \A p \in 1..M :
-                        (fs[w].cells[p] = CellMax /\ last'.o[1] # "clear") => fs'[w].cells[p] = CellMax ]_vars   \* C16
+                        (fs[w].cells[p] = CellMax /\ last'.o[1] \notin {"clear", "int"}) => fs'[w].cells[p] = CellMax ]_vars   \* C16
 
 -----------------------------------------------------------------------------
-FView(f) == [cells |-> f.cells, n |-> f.n, out |-> f.out, sat |-> f.sat, est |-> [k \in Keys |-> Est(f, k)], bits |-> SetBits(f)]
+FView(f) == [cells |-> f.cells, n |-> f.n, out |-> f.out, sat |-> f.sat, nest |-> f.nest, est |-> [k \in Keys |-> Est(f, k)], bits |-> SetBits(f)]
 Emit == PrintT(ToJson([pos |-> pos, h |-> hist, a |-> last'.o, ret |-> last'.ret,
                        e |-> [A |-> FView(fs'["A"]), B |-> FView(fs'["B"]),
                               U |-> UnionCells(fs'["A"], fs'["B"]), I |-> InterCells(fs'["A"], fs'["B"]),
